@@ -10268,6 +10268,7 @@ simplifier_insert_input_roots(simplifier_t *self)
     tsk_id_t input_id, output_id;
     tsk_segment_t *x;
     tsk_size_t num_flushed_edges;
+    bool recorded;
     double youngest_root_time = DBL_MAX;
     const double *node_time = self->tables->nodes.time;
 
@@ -10276,14 +10277,15 @@ simplifier_insert_input_roots(simplifier_t *self)
         x = self->ancestor_map_head[input_id];
         if (x != NULL) {
             output_id = self->node_id_map[input_id];
+            recorded = false;
             if (output_id == TSK_NULL) {
                 output_id = simplifier_record_node(self, input_id);
                 if (output_id < 0) {
                     ret = (int) output_id;
                     goto out;
                 }
+                recorded = true;
             }
-            youngest_root_time = TSK_MIN(youngest_root_time, node_time[output_id]);
             while (x != NULL) {
                 if (x->node != output_id) {
                     ret = simplifier_record_edge(self, x->left, x->right, x->node);
@@ -10298,6 +10300,17 @@ simplifier_insert_input_roots(simplifier_t *self)
             ret = simplifier_flush_edges(self, output_id, &num_flushed_edges);
             if (ret != 0) {
                 goto out;
+            }
+            if (recorded && num_flushed_edges == 0) {
+                /* Every edge below this root was dropped (reduce_to_site_topology):
+                 * as in simplifier_merge_ancestors, a node recorded for edges
+                 * that were never output is taken back. */
+                ret = simplifier_rewind_node(self, input_id, output_id);
+                if (ret != 0) {
+                    goto out;
+                }
+            } else {
+                youngest_root_time = TSK_MIN(youngest_root_time, node_time[output_id]);
             }
         }
     }
